@@ -201,11 +201,11 @@ Theorem vfork_restore_exact : forall pid cpid thr t e ops t' sv',
 Proof.
   intros pid cpid thr t e ops t' sv' Hpid Hc H. unfold vsection, vprepare in H.
   assert (Ec : (cpid =? pid) = false) by (apply N.eqb_neq; exact Hc).
-  unfold vrestore at 1 in H. cbn [s_pid s_thr] in H. rewrite Ec, Bool.andb_false_r in H.
+  unfold vrestore at 1 in H. unfold vran in H. cbn [s_pid s_thr s_ran] in H. rewrite Ec, Bool.andb_false_r in H. cbn [andb] in H.
   destruct (vchild (v_idx t) (vpop (vpush t e)) ops) as [t3|] eqn:Ech; [|discriminate].
   assert (Hfl : v_idx t <= v_idx (vpop (vpush t e))) by (unfold vpop, vpush; cbn; lia).
   destruct (vchild_below _ _ _ _ Hfl Ech) as [_ Hbelow].
-  unfold vrestore in H. cbn [s_pid s_thr s_idx s_ridx s_ent] in H.
+  unfold vrestore in H. cbn [s_pid s_thr s_idx s_ridx s_ent s_ran] in H.
   assert (E1 : (0 <? pid) = true) by (apply N.ltb_lt; exact Hpid).
   rewrite E1, !N.eqb_refl in H. cbn [andb] in H. inversion H; subst t' sv'. clear H.
   cbn [v_idx v_ridx v_arr]. repeat split.
@@ -221,9 +221,13 @@ Theorem vfork_other_thread_untouched : forall pid thr t sv, thr <> s_thr sv -> v
 Proof.
   intros pid thr t sv H. unfold vrestore. rewrite (proj2 (N.eqb_neq _ _) H), Bool.andb_false_r. reflexivity.
 Qed.
+(* a hook the calling thread runs in the parent BEFORE the child has run - a signal handler between the entry hook of
+   vfork and the system call - leaves everything alone: the saved state stays for the real return *)
+Theorem vfork_before_child_untouched : forall pid thr t sv, s_ran sv = false -> vrestore pid thr t sv = (t, sv).
+Proof. intros pid thr t sv H. unfold vrestore. rewrite H, Bool.andb_false_r. reflexivity. Qed.
 (* ... which the code as found did not: thread 2 (idx 1) takes thread 1's saved index 3 *)
 Example vfork_legacy_other_thread_refuted :
-  let sv := {| s_pid := 7; s_thr := 1; s_idx := 3; s_ridx := 3; s_ent := {| v_id := 9; v_norec := false |} |} in
+  let sv := {| s_pid := 7; s_thr := 1; s_idx := 3; s_ridx := 3; s_ent := {| v_id := 9; v_norec := false |}; s_ran := true |} in
   let t2 := vpush vth0 {| v_id := 5; v_norec := false |} in
   vshape (fst (vrestore_legacy 7 2 t2 sv)) = (3, 3, [false; false; false]) /\ vshape t2 = (1, 1, [false]) /\
   vshape (fst (vrestore 7 2 t2 sv)) = (1, 1, [false]).
